@@ -98,18 +98,15 @@ class Guard:
     THRESH2 = F(1, 10 ** 6)
 
     def __init__(self):
-        self.min_nonzero = None
+        self.bad = False
 
     def obs(self, num2, den2):
         """value^2 = num2/den2 (den2 > 0)."""
-        if num2 == 0:
-            return
-        v = F(num2) / F(den2)
-        if self.min_nonzero is None or v < self.min_nonzero:
-            self.min_nonzero = v
+        if num2 != 0 and num2 * 1000000 < den2:
+            self.bad = True
 
     def ok(self):
-        return self.min_nonzero is None or self.min_nonzero >= self.THRESH2
+        return not self.bad
 
 
 class _NoGuard:
@@ -128,6 +125,11 @@ _CTX = 10 ** 10
 def hash_boundary_ok(c, sig=10, band=F(5, 1000)):
     """True iff the rational c is at least `band` rounding steps away from a decimal
     rounding boundary of round(c, sig)."""
+    if isinstance(c, int):
+        return True
+    dd = c.denominator
+    if sig >= 10 and dd <= 1024 and dd & (dd - 1) == 0:
+        return True
     x = fr(c) * (10 ** sig)
     f = x - (x.numerator // x.denominator)
     return abs(f - F(1, 2)) >= band
